@@ -172,8 +172,9 @@ func (s *Sim) checkRelease(n *SendNode, what, name, md5 string) {
 		// classify the history (known-findings are keyed on this)
 		transmitted, earlier, scanned := false, false, false
 		for _, t := range s.ob.tx {
-			for _, p := range t.Parts {
-				if p.Name == name && p.Hash == md5 {
+			for i, p := range t.Parts {
+				// "transmitted" = at least one part of this version was acknowledged
+				if p.Name == name && p.Hash == md5 && t.Done && (t.Err == "" || (t.Err == "partial" && i < t.N)) {
 					transmitted = true
 				}
 			}
